@@ -393,9 +393,9 @@ Lemma put_op_step : forall w cs pend st p idx,
 Proof.
   intros w cs pend st p idx Hinv Ep. destruct p; cbn in Ep; try discriminate; cbn [step].
   - inversion Ep; subst idx. rewrite (inv_keys_len cs pend st Hinv). reflexivity.
-  - destruct (Z.ltb i 0); [discriminate|]. inversion Ep; subst. reflexivity.
+  - destruct (Z.ltb i 0); [discriminate|]. destruct (Z.ltb MEMO_MAX i); [discriminate|]. inversion Ep; subst. reflexivity.
   - inversion Ep; subst. reflexivity.
-  - inversion Ep; subst. reflexivity.
+  - destruct (Z.ltb MEMO_MAX i); [discriminate|]. inversion Ep; subst. reflexivity.
 Qed.
 
 Lemma put_sound : forall w cs pend v prog cs' rest st o s,
